@@ -168,7 +168,7 @@ def _format_resname(res):
     out = ''
     if chain:
         out += chain + '-'
-    resname = res.get('resname')
+    resname = res.get('resname', '')
     out += resname
     if resname and resname[-1].isdigit():
         out += '#'
@@ -253,18 +253,14 @@ def annotate_modifications(molecule, modifications, mutations, resspec_counts):
     residue = {key: residue_graph.nodes[0].get(key)
                for key in 'chain resid resname insertion_code'.split()}
     for mutmod, key, library in associations:
-        for resspec, mod in mutmod:
-            extra = False
+        for request_idx, (resspec, mod) in enumerate(mutmod):
             mod_found = _resiter(mod, residue_graph, resspec, library, key, molecule)
+            # One entry per request and per molecule, so that a request that
+            # matches nowhere in the system can be told apart from the others.
+            entry = {'success': mod_found, 'request': (key, request_idx)}
             if not mod_found:
-                #if no mod found, return that there's a problem
-                resspec_counts.append({'success': False,
-                                       'mutmod': _format_resname(resspec),
-                                       'post': mod,})
-                extra = True
-    #return that everything's fine by default
-    if not extra:
-        resspec_counts.append({'success': True})
+                entry.update({'mutmod': _format_resname(resspec), 'post': mod})
+            resspec_counts.append(entry)
 
 class AnnotateMutMod(Processor):
     """
@@ -298,7 +294,13 @@ class AnnotateMutMod(Processor):
         return molecule
     def run_system(self, system):
         super().run_system(system)
-        _exit = sum([i['success'] for i in self.resspec_counts])
-        if _exit == 0:
-            LOGGER.warning('Residue specified by "{}" for mutation "{}" not found',
-                           self.resspec_counts[0]['mutmod'], self.resspec_counts[0]['post'])
+        not_found = {}
+        for entry in self.resspec_counts:
+            if entry['success']:
+                not_found[entry['request']] = None
+            else:
+                not_found.setdefault(entry['request'], entry)
+        for entry in not_found.values():
+            if entry is not None:
+                LOGGER.warning('Residue specified by "{}" for mutation "{}" not found',
+                               entry['mutmod'], entry['post'])
